@@ -18,7 +18,7 @@ CONSTANTS Kinds, MaxRows,
                                \* decorator without functools.wraps, a closure - or to a property with a non-function getter
                                \* DECODES, and stub generation later raises OUTSIDE the per-row try
 
-EscapingKinds == {"nowraps", "now_closure", "prop_getter_nonfunction"}
+EscapingKinds == {"nowraps", "now_closure", "prop_getter_nonfunction", "alias_of_removed", "now_proxy"}
 
 VARIABLES rows, pos, traces, failed, rc, phase
 vars == <<rows, pos, traces, failed, rc, phase>>
